@@ -84,7 +84,7 @@ func judgeC03(c ReqCase) *Fail {
 			if !ok {
 				return failf("params-reconstruct", "cannot reconstruct the weight of every final criterion %v from request and reports", ids)
 			}
-			defect := 0.0
+			defect, defectScale := 0.0, 0.0
 			for _, id := range ids {
 				sv := vals[id]
 				if cost[id] {
@@ -92,6 +92,7 @@ func judgeC03(c ReqCase) *Fail {
 				}
 				want += w[id] * sv
 				defect += sv
+				defectScale += math.Abs(sv)
 				scale += math.Abs(w[id] * sv)
 				if w[id] != 1 {
 					nontrivial = nontrivial || len(ids) >= 2
@@ -99,7 +100,7 @@ func judgeC03(c ReqCase) *Fail {
 			}
 			tol := 1e-8 + 1e-12*scale
 			if math.Abs(reported-want) > tol {
-				if openFindings["D10"] && math.Abs(reported-round8(defect)) <= 1e-8+1e-12*scale {
+				if openFindings["D10"] && math.Abs(reported-round8(defect)) <= 1e-8+1e-12*defectScale {
 					st.known("D10", c.Req)
 					continue
 				}
